@@ -67,9 +67,14 @@ def is_int_const(node):
         return False
 
 
+TYPE_NAMES = ("bool", "int", "float")
+FUNC_NAMES = ("sum", "len", "abs", "min", "max")
+
+
 class Translator:
     def __init__(self, modules):
         self.modules = set(modules)     # names bound by import statements of the file
+        self.locals = set()             # names bound in the function being translated
 
     def dotted(self, node):
         """a.b.c rooted at an imported module -> 'a.b.c', else None"""
@@ -85,11 +90,22 @@ class Translator:
         pos = list(e.args)
         if any(isinstance(a, ast.Starred) for a in pos) or any(k.arg is None for k in e.keywords):
             raise Unsupported("* / ** in call")
-        suffix = "".join(",%s=" % k.arg for k in e.keywords)
+        if (isinstance(f, ast.Name) and f.id in ("all", "any", "tuple", "list") and len(pos) == 1
+                and not e.keywords and isinstance(pos[0], ast.GeneratorExp)):
+            g = pos[0]
+            if f.id in ("all", "any"):
+                return self.comp("CAll" if f.id == "all" else "CAny", g.generators, g.elt)
+            # tuple(...) / list(...) consume the whole generator: a list comprehension
+            return "(ECall %s %s)" % (cstr(f.id), lst([self.comp("CList", g.generators, g.elt)]))
+        # a builtin function passed by keyword (sorted(x, key=sum)) is part of the callee's name
+        fkw = [k for k in e.keywords if isinstance(k.value, ast.Name) and k.value.id in FUNC_NAMES
+               and k.value.id not in self.locals]
+        vkw = [k for k in e.keywords if k not in fkw]
+        suffix = "".join(",%s=%s" % (k.arg, k.value.id) for k in fkw) + "".join(",%s=" % k.arg for k in vkw)
         if isinstance(f, ast.Name) and f.id == "isinstance":
             args = []
         else:
-            args = [self.expr(a) for a in pos] + [self.expr(k.value) for k in e.keywords]
+            args = [self.expr(a) for a in pos] + [self.expr(k.value) for k in vkw]
         if isinstance(f, ast.Name):
             if f.id == "isinstance":
                 # isinstance(x, str|tuple|list): the class is part of the callee's name
@@ -98,6 +114,10 @@ class Translator:
                     return "(ECall %s %s)" % (cstr("isinstance:" + pos[1].id), lst([self.expr(pos[0])]))
                 raise Unsupported("isinstance form")
             return "(ECall %s %s)" % (cstr(f.id + suffix), lst(args))
+        if (isinstance(f, ast.Attribute) and isinstance(f.value, ast.Call) and isinstance(f.value.func, ast.Name)
+                and f.value.func.id == "super" and not f.value.args and not f.value.keywords):
+            # super().m(args): the base class method applied to self (the proofs check the class's bases)
+            return "(ECall %s %s)" % (cstr("super." + f.attr + suffix), lst(['(EVar "self")'] + args))
         if isinstance(f, ast.Attribute):
             name = self.dotted(f)
             if name is not None:
@@ -105,11 +125,29 @@ class Translator:
             return "(ECall %s %s)" % (cstr("meth:" + f.attr + suffix), lst([self.expr(f.value)] + args))
         raise Unsupported("callee " + ast.dump(f)[:100])
 
+    def comp(self, kind, generators, elt):
+        """[elt for x in it] / all(elt for x in it) / any(elt for x in it); several `for` clauses only for
+        all / any, where any(e for i in A for j in B) is any(any(e for j in B) for i in A) (same order of
+        evaluation, same laziness)"""
+        g = generators[0]
+        if g.ifs or g.is_async or not isinstance(g.target, ast.Name):
+            raise Unsupported("comprehension form")
+        if len(generators) > 1:
+            # [e for i in A for j in B] is the concatenation of [[e for j in B] for i in A]
+            body = self.comp(kind, generators[1:], elt)
+            outer = "CConcat" if kind == "CList" else kind
+            return "(EComp %s %s %s %s)" % (outer, cstr(g.target.id), self.expr(g.iter), body)
+        return "(EComp %s %s %s %s)" % (kind, cstr(g.target.id), self.expr(g.iter), self.expr(elt))
+
     def expr(self, e):
         expr = self.expr
+        if isinstance(e, ast.ListComp):
+            return self.comp("CList", e.generators, e.elt)
         if isinstance(e, ast.Name):
             if e.id in self.modules:
                 raise Unsupported("module %s used as a value" % e.id)
+            if e.id in TYPE_NAMES and e.id not in self.locals:
+                return "(EConst (VS %s))" % cstr("<type:%s>" % e.id)    # a type object used as a value (dtype=bool)
             return "(EVar %s)" % cstr(e.id)
         if isinstance(e, ast.Constant):
             return const(e.value)
@@ -158,7 +196,7 @@ class Translator:
         if isinstance(e, (ast.Tuple, ast.List)):
             if any(isinstance(x, ast.Starred) for x in e.elts):
                 raise Unsupported("starred element")
-            return "(ETuple %s)" % lst([expr(x) for x in e.elts])
+            return "(%s %s)" % ("ETuple" if isinstance(e, ast.Tuple) else "EList", lst([expr(x) for x in e.elts]))
         if isinstance(e, ast.Subscript):
             sl = e.slice
             if isinstance(sl, ast.Slice):
@@ -188,13 +226,30 @@ class Translator:
 
     def stmts(self, body):
         out = []
-        for s in body:
+        for pos_, s in enumerate(body):
+            if (isinstance(s, ast.Assign) and len(s.targets) == 1 and isinstance(s.targets[0], ast.Name)
+                    and isinstance(s.value, ast.GeneratorExp)):
+                # x = (generator): materialised as a list.  Equivalent only if the generator is consumed
+                # once, at once: x must occur exactly once in the function, in the next statement.
+                x = s.targets[0].id
+                uses = [n for n in ast.walk(self.function) if isinstance(n, ast.Name) and n.id == x
+                        and isinstance(n.ctx, ast.Load)]
+                nxt = body[pos_ + 1] if pos_ + 1 < len(body) else None
+                if len(uses) != 1 or nxt is None or uses[0] not in list(ast.walk(nxt)):
+                    raise Unsupported("generator %s not consumed exactly once by the next statement" % x)
+                out.append("SAssign %s %s" % (lst([cstr(x)]), self.comp("CList", s.value.generators, s.value.elt)))
+                continue
             if isinstance(s, ast.Expr) and isinstance(s.value, ast.Constant) and isinstance(s.value.value, str):
                 continue   # docstring / stray string
             if isinstance(s, ast.Assign):
                 if len(s.targets) != 1:
                     raise Unsupported("chained assignment")
                 t = s.targets[0]
+                if isinstance(t, ast.Attribute):
+                    if not (isinstance(t.value, ast.Name) and t.value.id == "self"):
+                        raise Unsupported("attribute assignment on something other than self")
+                    out.append("SSetAttr %s %s %s" % (cstr("self"), cstr(t.attr), self.expr(s.value)))
+                    continue
                 if isinstance(t, ast.Subscript):
                     if not isinstance(t.value, ast.Name):
                         raise Unsupported("assignment into a compound object")
@@ -210,9 +265,17 @@ class Translator:
                 else:
                     out.append("SAssign %s %s" % (lst([cstr(n) for n in target_names(t)]), self.expr(s.value)))
             elif isinstance(s, ast.AugAssign):
-                if not isinstance(s.target, ast.Name) or type(s.op) not in BIN:
-                    raise Unsupported("augmented assignment")
-                out.append("SAug %s %s %s" % (cstr(s.target.id), BIN[type(s.op)], self.expr(s.value)))
+                if type(s.op) not in BIN:
+                    raise Unsupported("augmented assignment operator")
+                t = s.target
+                if (isinstance(t, ast.Subscript) and isinstance(t.value, ast.Name)
+                        and not isinstance(t.slice, (ast.Slice, ast.Tuple))):
+                    out.append("SAugItem %s %s %s %s" % (cstr(t.value.id), self.expr(t.slice), BIN[type(s.op)],
+                                                         self.expr(s.value)))
+                elif isinstance(t, ast.Name):
+                    out.append("SAug %s %s %s" % (cstr(t.id), BIN[type(s.op)], self.expr(s.value)))
+                else:
+                    raise Unsupported("augmented assignment target")
             elif isinstance(s, ast.If):
                 out.append("SIf %s %s %s" % (self.expr(s.test), self.stmts(s.body), self.stmts(s.orelse)))
             elif isinstance(s, ast.For):
@@ -262,8 +325,10 @@ class Fresh:
         self.tr = tr
 
     def kind(self, e):
-        if isinstance(e, ast.List):
+        if isinstance(e, (ast.List, ast.ListComp)):
             return "list"
+        if isinstance(e, ast.Constant) and e.value is None:
+            return "none"        # not an object that can be mutated; joins with a fresh list / array
         if isinstance(e, ast.Call) and not e.keywords:
             if isinstance(e.func, ast.Name) and e.func.id in FRESH_LIST_CALLS:
                 return "list"
@@ -277,6 +342,10 @@ class Fresh:
             return
         if isinstance(e, ast.Name):
             out.add(e.id)
+        elif (isinstance(e, ast.Compare) and len(e.ops) == 1 and isinstance(e.ops[0], (ast.Is, ast.IsNot))
+              and isinstance(e.left, ast.Name) and isinstance(e.comparators[0], ast.Constant)
+              and e.comparators[0].value is None):
+            pass                 # x is None: no alias
         elif isinstance(e, ast.Subscript) and isinstance(e.value, ast.Name):
             self.escaping(e.slice, out)
         elif (isinstance(e, ast.Call) and isinstance(e.func, ast.Name) and e.func.id == "len" and len(e.args) == 1
@@ -285,6 +354,19 @@ class Fresh:
         else:
             for c in ast.iter_child_nodes(e):
                 self.escaping(c, out)
+
+    @staticmethod
+    def join(a, b):
+        out = {}
+        for k, v in a.items():
+            w = b.get(k)
+            if w == v:
+                out[k] = v
+            elif v == "none" and w in ("list", "array"):
+                out[k] = w
+            elif w == "none" and v in ("list", "array"):
+                out[k] = v
+        return out
 
     def drop(self, state, names):
         for n in names:
@@ -302,7 +384,9 @@ class Fresh:
             if isinstance(s, ast.Assign):
                 t = s.targets[0]
                 self.escaping(s.value, esc)
-                if isinstance(t, ast.Subscript):
+                if isinstance(t, ast.Attribute):
+                    self.drop(state, esc)      # self.a = v: v escapes into the object
+                elif isinstance(t, ast.Subscript):
                     self.escaping(t.slice, esc)
                     x = t.value.id
                     self.drop(state, esc)
@@ -316,7 +400,12 @@ class Fresh:
                         state[names[0]] = k
             elif isinstance(s, ast.AugAssign):
                 self.escaping(s.value, esc)
-                self.drop(state, esc | {s.target.id})
+                if isinstance(s.target, ast.Subscript):
+                    self.escaping(s.target.slice, esc)
+                    self.drop(state, esc)
+                    self.need(state, s.target.value.id, ("list", "array"), frozen, "item update")
+                else:
+                    self.drop(state, esc | {s.target.id})
             elif isinstance(s, ast.If):
                 self.escaping(s.test, esc)
                 self.drop(state, esc)
@@ -325,7 +414,7 @@ class Fresh:
                 self.block(s.body, a, frozen)
                 self.block(s.orelse, b, frozen)
                 state.clear()
-                state.update({k: v for k, v in a.items() if b.get(k) == v})
+                state.update(self.join(a, b))
             elif isinstance(s, ast.For):
                 self.escaping(s.iter, esc)
                 self.drop(state, esc | set(target_names(s.target)))
@@ -334,7 +423,7 @@ class Fresh:
                     a = dict(state)
                     self.drop(a, target_names(s.target))
                     self.block(s.body, a, inner_frozen)
-                    joined = {k: v for k, v in state.items() if a.get(k) == v}
+                    joined = self.join(state, a)
                     if joined == state:
                         break
                     state.clear()
@@ -373,18 +462,38 @@ def translate(path, names):
     tree = ast.parse(open(path).read())
     tr = Translator(imported_names(tree))
     found = {}
+    defs_ = []
     for n in tree.body:
-        if isinstance(n, ast.FunctionDef) and n.name in names:
+        if isinstance(n, ast.FunctionDef):
+            defs_.append((n.name, n, None))
+        elif isinstance(n, ast.ClassDef):
+            for m in n.body:
+                if isinstance(m, ast.FunctionDef):
+                    defs_.append((n.name + "." + m.name, m, n))
+    for qual, n, cls in defs_:
+        if qual in names:
             a = n.args
             if a.vararg or a.kwarg or a.kwonlyargs or a.posonlyargs:
                 raise Unsupported("signature of " + n.name)
             if n.decorator_list:
                 raise Unsupported("decorated function " + n.name)
             params = [x.arg for x in a.args]
+            tr.function = n
+            tr.locals = set(params) | {x.id for x in ast.walk(n) if isinstance(x, ast.Name) and isinstance(x.ctx, ast.Store)}
             body = tr.stmts(n.body)
             Fresh(tr).block([s for s in n.body], {}, frozenset())
-            found[n.name] = "Definition src_%s : func :=\n  {| f_params := %s;\n     f_body := %s |}.\n" % (
-                n.name, lst([cstr(p) for p in params]), body)
+            ident = qual.replace(".", "_")
+            found[qual] = "Definition src_%s : func :=\n  {| f_params := %s;\n     f_body := %s |}.\n" % (
+                ident, lst([cstr(p) for p in params]), body)
+            if cls is not None:
+                if cls.keywords and any(k.arg != "metaclass" for k in cls.keywords):
+                    raise Unsupported("class keywords of " + cls.name)
+                bases = []
+                for b in cls.bases:
+                    if not isinstance(b, ast.Name):
+                        raise Unsupported("base class expression of " + cls.name)
+                    bases.append(b.id)
+                found[qual] += "Definition bases_%s : list string := %s.\n" % (ident, lst([cstr(b) for b in bases]))
     missing = [n for n in names if n not in found]
     if missing:
         raise Unsupported("functions not found: %s" % missing)
